@@ -146,6 +146,51 @@ impl C06 {
         }
     }
 
+    /// A coequalizer over some points, then exactly 2^8 - 1 or 2^16 - 1 unrelated tiny coequalizer calls on this thread,
+    /// then a different coequalizer over the same points: the second answer must be the one for its own pairs (what
+    /// an earlier call computed, however many calls ago, is not an input).
+    fn call_counter_wrap(&self, ctx: &mut Ctx, r: &mut Rng) {
+        let wrap: usize = if r.chance(1, 8) { 1 << 16 } else { 1 << 8 };
+        ctx.class(if wrap == 256 { "call_counter_wrap_256" } else { "call_counter_wrap_65536" });
+        let n = r.range(6, 40);
+        let lo = r.range(2, n - 2);
+        let judge = |ctx: &mut Ctx, pairs: &Vec<(usize, usize)>, when: &str| {
+            let f: F = (pairs.iter().map(|p| p.0).collect(), n);
+            let g: F = (pairs.iter().map(|p| p.1).collect(), n);
+            let input = json!({"f": fj(&f), "g": fj(&g), "history": when});
+            let (lf, lg) = (ff(f.0.clone(), n), ff(g.0.clone(), n));
+            if let Some(Some(q)) = call!(ctx, "coequalizer", input, lf.coequalizer(&lg)) {
+                let (cls, k) = components(n, pairs);
+                let qt = &q.table.0;
+                let ok = qt.len() == n && q.target == k && qt.iter().all(|&c| c < q.target) && same_partition(qt, &cls);
+                ctx.check(ok, "coequalizer/identifies-only-linked-elements/value/call_history", || json!({"input": input, "observed": qt, "observed_target": q.target, "expected_partition": cls}));
+            }
+        };
+        // first call: identifications among the points lo.. only (possibly none: the discrete case)
+        let k1 = r.below(4);
+        let first: Vec<(usize, usize)> = (0..k1).map(|_| (r.range(lo, n - 1), r.range(lo, n - 1))).collect();
+        judge(ctx, &first, "first call");
+        // unrelated calls on the points 0 and 1 of a two-point set
+        let (a, b) = (ff(vec![0], 2), ff(vec![1], 2));
+        let (c, d) = (ff(vec![], 2), ff(vec![], 2));
+        let mut sink = 0usize;
+        let between = guard(|| {
+            for i in 0..wrap - 1 {
+                let q = if i % 2 == 0 { a.coequalizer(&b) } else { c.coequalizer(&d) };
+                sink += q.map(|q| q.target).unwrap_or(0);
+            }
+            sink
+        });
+        if between.is_err() {
+            ctx.inconclusive("call_counter_wrap: a tiny coequalizer call panicked");
+            return;
+        }
+        let k2 = r.range(1, 4);
+        let second: Vec<(usize, usize)> = (0..k2).map(|_| (r.range(lo, n - 1), r.range(0, n - 1))).collect();
+        judge(ctx, &second, &format!("after {} unrelated calls", wrap - 1));
+        judge(ctx, &first, "the first call again");
+    }
+
     fn single(&self, ctx: &mut Ctx, f: &F, r: &mut Rng) {
         let input = json!({"f": fj(f)});
         let lf = ff(f.0.clone(), f.1);
@@ -493,6 +538,9 @@ impl Monitor for C06 {
             ("class:tables_of_more_than_256_entries", 100),
             ("class:sparse_identifications_over_a_large_codomain", 50),
             ("class:tournament_coequalizer", 30),
+            ("class:chain_in_hostile_order", 50),
+            ("class:call_counter_wrap_256", 20),
+            ("class:call_counter_wrap_65536", 3),
             ("class:long_identification_chain_on_a_thread_stack", 6),
             ("outcome:compose_Some", 100),
             ("outcome:compose_None", 100),
@@ -588,6 +636,27 @@ impl Monitor for C06 {
                     let g: F = (r.vec_below(k, b), b);
                     ctx.class("sparse_identifications_over_a_large_codomain");
                     self.pair(ctx, &f, &g);
+                } else if r.chance(1, 200) {
+                    // one class of 65-400 points given as a chain in a hostile order: links listed from the far end
+                    // backwards (k, k-1), forwards, or shuffled, each randomly oriented, closed by a pair joining the two
+                    // ends -- orders in which a union-find without balancing builds a path, not a bush
+                    let n = r.range(65, 400);
+                    let mut pairs: Vec<(usize, usize)> = (1..n).map(|k| (k, k - 1)).collect();
+                    match r.below(4) {
+                        0 => pairs.reverse(),
+                        1 => {}
+                        2 => r.shuffle(&mut pairs),
+                        _ => { pairs.reverse(); for p in pairs.iter_mut() { *p = (p.1, p.0); } }
+                    }
+                    if r.chance(1, 3) { for p in pairs.iter_mut() { if r.chance(1, 2) { *p = (p.1, p.0); } } }
+                    if r.chance(2, 3) { pairs.push((n - 1, 0)); }
+                    let extra = r.below(4);
+                    let f: F = (pairs.iter().map(|p| p.0).collect(), n + extra);
+                    let g: F = (pairs.iter().map(|p| p.1).collect(), n + extra);
+                    ctx.class("chain_in_hostile_order");
+                    self.pair(ctx, &f, &g);
+                } else if r.chance(1, 400) {
+                    self.call_counter_wrap(ctx, r);
                 } else if r.chance(1, 500) {
                     // deep identification trees: 2^k points merged in tournament order
                     let k = 9 + r.below(3) as u32;
